@@ -28,6 +28,21 @@ def msg_parts(m):
         return list(m[1])
     return [m]
 
+def _targets_blob(loc):
+    """The written location is (a region of) the received blob / a caller-owned buffer — not a local scratch array."""
+    seen = 0
+    while isinstance(loc, tuple) and loc and seen < 8:
+        if loc[0] in ("P", "T"):
+            return True
+        if loc[0] == "L":
+            return False
+        if loc[0] in ("R", "R?", "V", "F", "IDX", "D") and len(loc) > 1:
+            loc = loc[1]
+            seen += 1
+            continue
+        return True
+    return True
+
 def check(ctx, be, op):
     w = ctx.world
     key = f"{op}/{be}"
@@ -131,7 +146,7 @@ def check(ctx, be, op):
                 d = run.norm.n(e.get("data"))
                 if contains(d, base):
                     p4.append("decryption of blob bytes before the tag verification")
-            if e["kind"] == "copy" and not ver:
+            if e["kind"] == "copy" and not ver and _targets_blob(e.get("target")):
                 p4.append("copy into the blob before the tag verification")
         if p.kind == "return" and p.okness is not False and not ver:
             p4.append("an Ok exit is reachable without the tag verification")
